@@ -58,7 +58,7 @@ REQUIRED_THEOREMS = ["Gv.Props.C03." + n for n in [
     "nexus_counterexample_empty_command", "nexus_counterexample_second_data_block",
     # the raw input, ALL byte strings (rune reader model Model/Fmt/Utf8.lean, Proofs/Utf8Norm.lean)
     "fasta_parseBytes_ascii", "fasta_outcome_bytes_partial", "fasta_outcome_bytes",
-    "phylip_parseBytes_ascii", "phylip_outcome_bytes", "phylip_multi_outcome_bytes", "partition_outcome_bytes",
+    "phylip_parseBytes_ascii", "phylip_header_reading_raw", "phylip_outcome_bytes", "phylip_multi_outcome_bytes", "partition_outcome_bytes",
     "clustal_outcome_bytes", "stockholm_outcome_bytes", "nexus_outcome_bytes", "parseBytes_ascii_claim"]]
 TRUSTED = ["bufio.Reader buffering (ReadRune = utf8.DecodeRune on the remaining input; the decoding itself is modelled in "
            "Model/Fmt/Utf8.lean and compared on every input with bytes >= 128); unicode.ToUpper: of the runes >= 0x80 only "
@@ -122,8 +122,9 @@ PARTIAL = [
     "sequence reaches names and residues as EF BF BD: lengths are lengths of the WRITTEN bytes; strict Phylip names are ten "
     "runes). That the byte lexers on Utf8.norm equal the rune lexers rests on the facts of Proofs/Utf8Norm.lean (rune < 0x80 "
     "iff ASCII byte, written back as itself; rune >= 0x80 written with bytes >= 0x80 only) and on the correspondence run, not "
-    "on a proved lexer equivalence. The header-consistency clause of phylip_outcome_bytes reads the header of Utf8.norm bs "
-    "(the oracle predicate reads the raw bytes; equality of the two readings is not proved). The keyword tests of the Clustal, "
+    "on a proved lexer equivalence. The header-consistency clause and the blank-input clause of phylip_outcome_bytes read the RAW "
+    "bytes, as the oracle predicate does (phylip_header_reading_raw: declaredPhylip and blankToNul read the same off "
+    "Utf8.norm bs and off bs, for all byte strings - Proofs/Utf8Header.lean). The keyword tests of the Clustal, "
     "Stockholm and Nexus lexer models upper-case rune-wise (Utf8.upperLit: U+0131 / U+017F become I / S, so `clu\u017ftal`, "
     "`matr\u0131x`, `# \u017fTOCKHOLM 1.0` are keywords, as in the Go code); clustal_outcome_bytes, stockholm_outcome_bytes and "
     "nexus_outcome_bytes hold for ALL byte strings without exception and the former `no claim` answer is gone (on ASCII literals "
